@@ -118,7 +118,24 @@ def suite_sigma(ctx, case):
                      'grid point nominally at sigma=%r (r - sigma = %.3g) is outside the core of pair %s-%s' % (s, off, a, b),
                      key='C10:contact-float-noise' if 0 < off < tol else 'C10:contact')
 
-SUITES = {'eval': suite_eval, 'sigma': suite_sigma}
+def suite_intgrid(ctx, case):
+    """grids whose dtype is not float64: Domain(dr=1) (an int spacing) has an INTEGER r array; float32 grids; the documented u(r)
+    must come out whatever the dtype of the distances (identical distances -> identical values)"""
+    L = case['L']; dr = case['dr']
+    d = pyPRISM.Domain(length=L, dr=dr)
+    grids = {'domain': d.r, 'int64': np.arange(1, L + 1) * int(dr), 'float64': (np.arange(1, L + 1) * int(dr)).astype(float)}
+    U = make(case)
+    ref = np.array([documented(case, float(x)) for x in grids['float64']])
+    for name, r in grids.items():
+        with np.errstate(all='ignore'):
+            out = np.array(make(case).calculate(r), dtype=float)
+        ok = out.shape == ref.shape and bool(np.all((out == ref) | (np.abs(out - ref) <= 1e-11 * np.maximum(np.abs(ref), np.abs(out)) + 1e-300)))
+        ctx.pred('intgrid', case, ok, '%s on the %s grid (dtype %s) differs from the documented u(r): %r vs %r' % (case['pot'], name, r.dtype, out[:4].tolist(), ref[:4].tolist()),
+                 key='C10:documented-u')
+    ctx.corr('intgrid', case, ctx.drv.ask(line(case, grids['float64'])), fl(np.array(make(case).calculate(grids['domain']), dtype=float)), rtol=1e-12,
+             atols=[1e-12 * (abs(x) + 1) for x in ref], what=case['pot'] + '.calculate on Domain(dr=%r).r' % dr)
+
+SUITES = {'eval': suite_eval, 'sigma': suite_sigma, 'intgrid': suite_intgrid}
 
 def gen_eval(rng, maxL):
     L = rng.choice([2, 4, 8, 16, rng.randint(1, maxL)])
@@ -147,6 +164,13 @@ def generate(ctx):
         s = c['p']['sigma']; n_in = sum(1 for x in c['r'] if not x > s)
         ctx.case('eval', c, 0 < n_in < len(c['r']), tags=['pot:' + c['pot'], 'sigma:' + c['fam']])
         suite_eval(ctx, c)
+    for _ in range(ctx.n(60, 600)):
+        c = gen_eval(rng, 8)
+        L = rng.choice([4, 8, 12]); dr = rng.choice([1, 1, 2])
+        c['p']['sigma'] = float(rng.choice([1, 2, 3]) * dr) + rng.choice([0.0, 0.0, 0.5])
+        if 'rcut' in c['p']: c['p']['rcut'] = c['p']['sigma'] * rng.choice([1.5, 2.0, 2.5])
+        case = {'pot': c['pot'], 'p': c['p'], 'L': L, 'dr': dr}
+        ctx.case('intgrid', case, True, tags=['intgrid:' + c['pot']]); suite_intgrid(ctx, case)
     # sigma defaulting and contact classification: sigma = every multiple of dr for several spacings
     for dr in ([0.1, 0.05, 0.25, 0.2] if ctx.quick() else [0.1, 0.05, 0.025, 0.25, 0.2, 0.125, 0.01, 0.3]):
         L = ctx.n(32, 128)
